@@ -70,7 +70,33 @@ def run_model(op_lines, timeout=3600):
     return res
 
 
+class _Hang(Exception):
+    pass
+
+
 def _impl_one(op):
+    """one operation on the real code, with a wall-clock limit: code that loops without consuming input (or never stops
+    emitting) is an observation (`R hang`), not an infrastructure failure"""
+    import signal
+    limit = float(os.environ.get("VERIF_OP_TIMEOUT", "60"))
+
+    def on_alarm(signum, frame):
+        raise _Hang()
+    try:
+        old = signal.signal(signal.SIGALRM, on_alarm)
+    except ValueError:          # not in the main thread: run unguarded
+        return _impl_do(op)
+    signal.setitimer(signal.ITIMER_REAL, limit)
+    try:
+        return _impl_do(op)
+    except _Hang:
+        return ["R hang"]
+    finally:
+        signal.setitimer(signal.ITIMER_REAL, 0)
+        signal.signal(signal.SIGALRM, old)
+
+
+def _impl_do(op):
     kind = op[0]
     if kind == "DEC":
         _, mode, tname, cc, enc, data = op
